@@ -1257,6 +1257,26 @@ def refcount_protocol_cxx(ctx, crate, cx):
                 order_ok = True
         ctx.ob(R, "resolvo::Vector::drop", "elements-destroyed-before-the-buffer-is-freed", order_ok, H,
                "the element destructors run in a loop that precedes resolvo_vector_free in the same block")
+    # --- no leak: the destructor releases this vector's share, copy assignment releases the old buffer before it takes the new one
+    for m in _kids(rec):
+        if m.get("kind") == "CXXDestructorDecl" and [x for x in _kids(m) if x.get("kind") == "CompoundStmt"]:
+            rel = bool(cxx.walk(m, lambda y: y.get("kind") in ("MemberExpr", "UnresolvedMemberExpr") and (y.get("member") or y.get("name")) == "drop")) or \
+                _contains_call(m, "resolvo_vector_free")
+            ctx.ob(R, "resolvo::Vector::~Vector", "destructor-releases-its-share", rel, H, "the destructor calls drop()")
+    for m in fns:
+        sig = m.get("type", {}).get("qualType", "")
+        if m.get("name") != "operator=" or "&&" in sig or "const" not in sig:
+            continue
+        who = [p_.get("name") for p_ in _kids(m) if p_.get("kind") == "ParmVarDecl"][0]
+        body = [x for x in _kids(m) if x.get("kind") == "CompoundStmt"][0]
+        sts = _kids(body)
+        take = [k for k, st in enumerate(sts) if st.get("kind") == "BinaryOperator" and st.get("opcode") == "=" and len(_kids(st)) == 2 and
+                _is_inner_of(_kids(st)[0], None)]
+        rel = [k for k, st in enumerate(sts) if cxx.walk(st, lambda y: y.get("kind") in ("MemberExpr", "UnresolvedMemberExpr") and (y.get("member") or y.get("name")) == "drop")]
+        swaps = any(cxx.walk(st, lambda y: ((y.get("referencedDecl") or {}).get("name") or y.get("name")) == "swap") for st in sts)
+        ok = swaps or (bool(take) and bool(rel) and min(rel) < min(take))
+        ctx.ob(R, "resolvo::Vector::operator=", "copy-assignment-releases-the-old-buffer", ok, H,
+               "drop() runs before `inner` is overwritten with `%s.inner` (or the copy-and-swap idiom is used)" % who)
     # --- move assignment
     for m in fns:
         sig = m.get("type", {}).get("qualType", "")
